@@ -5,7 +5,7 @@ use proptest::prelude::*;
 use crate::common::*;
 use crate::engine::{self, Load, Switches};
 use crate::gen;
-use crate::model::DObj;
+use crate::model::{DObj, DocVal};
 use crate::spec::RuleSpec;
 
 pub const ID: &str = "C12";
@@ -38,6 +38,14 @@ fn permutation(n: usize, seed: u64) -> Vec<usize> {
 
 /// kind c12.repeat / c12.threads; rules[0] = rule text; switches = bits (None: default set)
 pub fn judge(case: &Case) -> Outcome {
+    if case.kind == "c12.twins" {
+        // the reproducible unit is the whole curated sequence in two load orders
+        return match twins_disagreement() {
+            Ok((_, Some((i, x, y)))) => Outcome::Violation(twins_message(i, &x, &y)),
+            Ok((n, None)) => Outcome::Pass { nontrivial: None, evaluations: 2 * n as u64, labels: vec!["curated_twins_agree"] },
+            Err(why) => Outcome::Skip(why),
+        };
+    }
     let text = &case.rules[0];
     let sw = Switches::from_bits(case.switches.unwrap_or(15));
     let docs = &case.docs;
@@ -269,6 +277,106 @@ fn big_count_rule() -> BoxedStrategy<RuleSpec> {
         .boxed()
 }
 
+/// Rules that differ only in something a process-wide memo could forget to key on - the case flag,
+/// the relation, a cast, the field, the quantifier - over the same ten needles, each with documents
+/// that tell the variants apart. Two processes load them in opposite orders.
+pub fn curated() -> Vec<(String, Vec<DObj>)> {
+    let needle = |i: usize| format!("n{:03}x", i);
+    let list = |f: &dyn Fn(&str) -> String| -> String {
+        (0..10).map(|i| format!("    - '{}'\n", f(&needle(i)))).collect::<String>()
+    };
+    let variants: Vec<(&str, String)> = vec![
+        ("contains", list(&|n| format!("*{n}*"))),
+        ("icontains", list(&|n| format!("i*{n}*"))),
+        ("prefix", list(&|n| format!("{n}*"))),
+        ("iprefix", list(&|n| format!("i{n}*"))),
+        ("suffix", list(&|n| format!("*{n}"))),
+        ("exact", list(&|n| n.to_string())),
+        ("iexact", list(&|n| format!("i{n}"))),
+        ("regex", list(&|n| format!("?{n}"))),
+        ("iregex", list(&|n| format!("i?{n}"))),
+        ("anchored regex", list(&|n| format!("?^{n}$"))),
+    ];
+    let texts = ["n003x", "N003X", "zn003xz", "ZN003XZ", "n003xz", "zn003x", "n003", "n003x n007x", "N003X n007x"];
+    let mut docs: Vec<DObj> = vec![DObj::default()];
+    for t in texts {
+        docs.push(DObj(vec![("f1".to_string(), DocVal::s(t))]));
+        docs.push(DObj(vec![("f2".to_string(), DocVal::s(t))]));
+    }
+    docs.push(DObj(vec![("f1".to_string(), DocVal::arr(vec![DocVal::s("N003X"), DocVal::s("n007x")]))]));
+    docs.push(DObj(vec![("f1".to_string(), DocVal::Int(3))]));
+    let mut out = vec![];
+    for (_, members) in &variants {
+        for key in ["f1", "f2", "str(f1)", "all(f1)", "of(f1, 2)", "not(f1)"] {
+            out.push((
+                format!("detection:\n  A:\n    {key}:\n{members}  condition: A\ntrue_positives: []\ntrue_negatives: []\n"),
+                docs.clone(),
+            ));
+        }
+    }
+    out
+}
+
+fn digest_line(text: &str, docs: &[DObj], bits: u8) -> String {
+    match engine::load_text(text) {
+        Load::Ok(r) => match engine::optimise(&r, Switches::from_bits(bits)) {
+            Ok(o) => {
+                let v: String = docs
+                    .iter()
+                    .map(|d| match (engine::matches(&r, d), engine::matches(&o, d)) {
+                        (Ok(a), Ok(b)) => char::from(b'0' + a as u8 + 2 * b as u8),
+                        _ => 'P',
+                    })
+                    .collect();
+                format!("{:016x} {v}", hash_str(&snapshot(&o)))
+            }
+            Err(_) => "optimise-panic".to_string(),
+        },
+        Load::Rejected(_) => "rejected".to_string(),
+        Load::Panicked(_) => "load-panic".to_string(),
+    }
+}
+
+/// Run the curated rules in two fresh processes with opposite load orders; the first index on
+/// which they disagree, with both lines. Err = the workers could not be run.
+fn twins_disagreement() -> Result<(usize, Option<(usize, String, String)>), String> {
+    let exe = std::env::current_exe().map_err(|e| e.to_string())?;
+    let spawn_cur = |reversed: bool| {
+        std::process::Command::new(&exe)
+            .args(["worker", if reversed { "c12currev" } else { "c12cur" }])
+            .output()
+            .map(|o| String::from_utf8_lossy(&o.stdout).to_string())
+            .map_err(|e| e.to_string())
+    };
+    let (a, b) = (spawn_cur(false)?, spawn_cur(true)?);
+    let n = curated().len();
+    let la: Vec<&str> = a.lines().collect();
+    let mut lb: Vec<&str> = b.lines().collect();
+    lb.reverse();
+    if la.len() != n || lb.len() != n {
+        return Err(format!("curated worker output incomplete ({} / {} of {n} lines)", la.len(), lb.len()));
+    }
+    for (i, (x, y)) in la.iter().zip(lb.iter()).enumerate() {
+        if x != y {
+            return Ok((n, Some((i, x.to_string(), y.to_string()))));
+        }
+    }
+    Ok((n, None))
+}
+
+fn twins_message(i: usize, x: &str, y: &str) -> String {
+    format!("a rule gives different results depending on which rules the process loaded before it (curated rule #{i}): `{x}` vs `{y}` (digest of optimised expression; per document 0..3 = unoptimised + 2 * optimised verdict)")
+}
+
+/// Worker mode for the curated rules.
+pub fn worker_curated(reversed: bool) {
+    let cases = curated();
+    let order: Vec<usize> = if reversed { (0..cases.len()).rev().collect() } else { (0..cases.len()).collect() };
+    for i in order {
+        println!("{i} {}", digest_line(&cases[i].0, &cases[i].1, 15));
+    }
+}
+
 /// Worker mode: print one digest line per generated rule (used for the cross-process comparison).
 pub fn worker(seed: u64, n: usize, reversed: bool) {
     let values = gen::sample_values(seed, n, &strategy());
@@ -388,6 +496,24 @@ pub fn run(tier: &str, seed: u64) -> i32 {
             }
         }
         _ => report.notes.push("could not spawn worker processes; cross-process comparison skipped".into()),
+    }
+
+    // curated near-twin rules, loaded in opposite orders by two fresh processes
+    match twins_disagreement() {
+        Ok((n, found)) => {
+            let cases = curated();
+            report.label_n("curated_twin_rules", n as u64);
+            report.cases += n as u64;
+            report.evaluations += 2 * cases.iter().map(|c| c.1.len() as u64).sum::<u64>();
+            if let Some((i, x, y)) = found {
+                let mut c = Case::new("c12.twins");
+                c.rules = vec![cases[i].0.clone()];
+                c.docs = cases[i].1.clone();
+                c.switches = Some(15);
+                report.violations.push(Violation { case: c, message: twins_message(i, &x, &y) });
+            }
+        }
+        Err(why) => report.notes.push(format!("curated comparison skipped: {why}")),
     }
     report.finish()
 }
